@@ -46,13 +46,9 @@ Print Assumptions C05_parse_consumes_all.
      - at every node for which the Go code consults the type checker (unary / binary operand
        types, indexable / index type, sliceable / slice bounds, field access on a map, type
        assertion on any, argument types) the typing oracle did not object.
-   _partial: the lift to whole programs ("Accept p implies every expression of p is tree_ok for
-   the function table fixed by the signature pre-pass, and the scoping rules (f) declared before
-   use across statements, (g) no redeclaration in one scope, (h) every declared variable used")
-   is not proved: it needs a simulation between the parser's scope chain and a declarative
-   scope checker on the tree.  Those rules are covered by the model only through the
-   correspondence run (harness C05rules: every mutant of these rules is rejected by the model
-   and by parser.Parse at the same positions). *)
+   _partial: this is the expression level only.  The lift to whole programs (every expression
+   of an accepted program is tree_ok for the function table fixed by the signature pre-pass) and
+   the scoping rules (f) (g) (h) are in Props/C05_scope.v. *)
 Theorem C05_parse_expr_rules_partial : forall E fuel p c t c',
   parse_expr E fuel p c = Some (Some t, c') -> errs c' = [] -> tree_ok E t.
 Proof. intros E fuel. exact (proj1 (expr_rules E fuel)). Qed.
@@ -138,7 +134,7 @@ Example C05_parse_ex_stray_text :
   rejected (run [[k_ T_IF; k_ T_TRUE]; [i_ "print"; n_ "1"]; [k_ T_END; i_ "garbage"]]) = true.
 Proof. vm_compute. split; reflexivity. Qed.
 
-(* the remaining rules: rejected witnesses (the theorems above do not cover the scoping rules) *)
+(* the remaining rules: rejected witnesses (theorems: Props/C05_scope.v) *)
 Example C05_parse_ex_undeclared_variable : rejected (run [[i_ "print"; i_ "x"]]) = true.
 Proof. vm_compute. reflexivity. Qed.
 Example C05_parse_ex_unused_variable : rejected (run [[i_ "x"; k_ T_DECLARE; n_ "1"]]) = true.
